@@ -887,11 +887,64 @@ def _bool_origin(fn, fl, local, defs, neg=False, depth=0):
         return ('NONEMPTY' if neg else 'EMPTY', fl.operand_leaves(args[0]), set())
     if name == 'contains' and len(args) == 2:
         return ('NOTIN' if neg else 'IN', fl.operand_leaves(args[1]), fl.operand_leaves(args[0]))
-    # opaque predicate
+    # a local predicate function: remember which, so that a guard requiring it to be true can be
+    # expanded into the comparisons the predicate itself requires
     s = set()
     for a in args:
         s |= fl.operand_leaves(a)
-    return ('FALSE' if neg else 'TRUE', s | {'pred:' + (t['f'].get('resolved') or t['f'].get('path') or '?')}, set())
+    return ('FALSE' if neg else 'TRUE', s | {'pred:' + (t['f'].get('resolved') or t['f'].get('path') or '?')}, set(), t)
+
+
+def _expand_predicate(db, fn, fl, t, bi, line, reject, cov, depth=0):
+    """guards required for the local bool function called by `t` to return true, in fn's namespace"""
+    targets = [p for p in db.resolve(t['f'], fl.binding) if db.fns[p].has_mir]
+    if len(targets) != 1 or depth > 3:
+        return None
+    callee = db.fns[targets[0]]
+    if not cfgmod.returns_bool(callee):
+        return None
+    cfl = Flow(db, callee, fl.binding)
+    cdefs = common.defs_of(callee)
+    conj = []
+    for g in own_guards(db, callee, cfl):
+        if getattr(g, 'kind', None) in ('bounds',) or g.covers != 'all':
+            continue
+        conj.append((g.rel, g.lhs, g.rhs))
+    # the value finally returned (non-constant definitions of the return place)
+    finals = []
+    for dbi, kind, x in cdefs.get(0, []):
+        if kind == 'assign' and x['k'] == 'use' and 'c' in x['a']:
+            continue
+        if kind == 'assign' and x['k'] == 'use':
+            pl = op_place(x['a'])
+            if pl is not None and not pl['p']:
+                o = _bool_origin(callee, cfl, pl['l'], cdefs)
+                if o is None or len(o) > 3:
+                    return None
+                finals.append(o)
+                continue
+        if kind == 'assign' and x['k'] == 'bin' and x['op'] in REL_OF_BIN:
+            finals.append((REL_OF_BIN[x['op']], cfl.operand_leaves(x['a']), cfl.operand_leaves(x['b'])))
+            continue
+        if kind == 'call':
+            name = x['f'].get('name', '')
+            if name in REL_OF_CALL and x['f'].get('trait', '').startswith('core::cmp::') and len(x.get('args', [])) == 2:
+                finals.append((REL_OF_CALL[name], cfl.operand_leaves(x['args'][0]), cfl.operand_leaves(x['args'][1])))
+                continue
+        return None
+    if len(finals) > 1:
+        return None
+    conj += finals
+    if not conj:
+        return None
+    argl = [fl.operand_leaves(a) for a in t.get('args', [])]
+    aggs = fl.arg_aggs(t.get('args', []))
+    out = []
+    for rel, lhs, rhs in conj:
+        g = Guard(rel, fl._subst(lhs, argl, bi, argaggs=aggs), fl._subst(rhs, argl, bi, argaggs=aggs), fn.path, bi, line, reject, cov)
+        g.via = ['predicate ' + callee.path]
+        out.append(g)
+    return out
 
 
 def loop_of(fn, bb):
@@ -1099,7 +1152,8 @@ def own_guards(db, fn, fl):
             origin = _bool_origin(fn, fl, pl['l'], defs)
             if origin is None:
                 continue
-            rel, lhs, rhs = origin
+            rel, lhs, rhs = origin[0], origin[1], origin[2]
+            predcall = origin[3] if len(origin) > 3 else None
             # value 0 = false. Acceptance requires the branch taken to be an alive one.
             accept_true = any(v == 'otherwise' or v != '0' for v, _ in alive)
             accept_false = any(v == '0' for v, _ in alive)
@@ -1107,7 +1161,13 @@ def own_guards(db, fn, fl):
                 continue
             if accept_false:
                 rel = NEG[rel]
-            out.append(Guard(rel, lhs, rhs, fn.path, bi, t['line'], reject, cov))
+            expanded = None
+            if predcall is not None and rel == 'TRUE':
+                expanded = _expand_predicate(db, fn, fl, predcall, bi, t['line'], reject, cov)
+            if expanded:
+                out.extend(expanded)
+            else:
+                out.append(Guard(rel, lhs, rhs, fn.path, bi, t['line'], reject, cov))
         else:
             # discriminant / integer match: record which values keep the path alive
             ds = defs.get(pl['l'], [])
@@ -1194,7 +1254,7 @@ def effective_guards(db, path, binding=None, depth=0, stack=(), opaque=None, cov
         complete = True
         for bi, t in fn.calls():
             targets = db.resolve(t['f'], binding)
-            targets = [p for p in targets if db.fns[p].has_mir]
+            targets = [p for p in targets if db.fns[p].has_mir and not cfgmod.returns_bool(db.fns[p])]
             if not targets:
                 continue
             propagates = True
